@@ -4,13 +4,12 @@ from . import textrules as R
 
 
 def run(rep, tier):
-    rep.rule("C-esc", "every payload (tier name, interval label, point mark) written between quotes passes through escapeQuotes, which doubles every quote")
+    rep.rule("C-esc", "utils.escapeQuotes, interpreted on exemplar texts, doubles every double quote and changes nothing else (W-doc decides that every written payload passes through it)")
     rep.rule("C-unesc", "every payload the two text readers return is un-doubled exactly once, after its delimiting quotes were removed")
     rep.rule("C-regex-label", "the long reader's payload regexes are greedy and span lines")
     rep.rule("C-num-regex", "every numeric regex of the long reader captures whole every exemplar of the writer's numeric language, placed in the writer's own line template")
     rep.rule("C-num-conv", "utils.strToIntOrFloat, interpreted on the exemplars, returns their value")
     rep.rule("C-exact", "numToStr: repr on the non-integer path, the integer written is the integer compared, tolerance <= 1e-14")
-    rep.rule("C-numslot", "every number the text emitters write is formatted by numToStr")
     rep.rule("C-keys", "the dictionary protocol: emitted keys equal the README schemas; the plain-json conversion is a bijection that drops only per-tier spans and keeps tier order")
     rep.rule("C-flow", "blank removal is symmetric: exactly the entries with an empty label, iff includeEmptyIntervals is False")
     rep.rule("C-blocks", "the short reader pairs adjacent tier offsets only on an ascending list (one scan, or sorted after the merge)")
@@ -19,13 +18,12 @@ def run(rep, tier):
     rep.not_decided.append("float(repr(x)) == x (CPython guarantee, trusted); file-system and codec behaviour")
     rep.rule("W-doc", "both text emitters interpreted on generic textgrids (symbolic times, labels and names): an independent reader written from Praat's text-file specification (free-standing numbers, quoted strings with doubled quotes, flags; all else comment) recovers every name, class, span, declared size, time and label in order")
     R.rule_written_document(rep, tier)
-    R.rule_escape_emit(rep)
+    R.rule_escape_function(rep)
     R.rule_unescape_read(rep)
     R.rule_label_regex(rep)
     R.rule_numeric_regex(rep, tier)
     R.rule_numeric_conversion(rep, tier)
     R.rule_exact_formatter(rep)
-    R.rule_numeric_slots(rep)
     R.rule_json_protocol(rep)
     R.rule_reader_flow(rep)
     R.rule_scans(rep)
